@@ -209,6 +209,19 @@ def misc(ck, agg):
         agg.add("R17.3", f, "with nobody answering renew_address() ends through its clock test and returns None", bool(rets) and all(isinstance(norm(o.value), Const) and norm(o.value).v is None for o in rets),
                 "%s: returns %r" % (clsname, [o.value for o in rets][:4]))
         agg.add("R17.3", f, "renew_address() never raises when nobody answers", not [o for o in outs if o.kind == "raise"], "raises %r" % [o.value.exc for o in outs if o.kind == "raise"][:3])
+        # "within the given timeout": the deadline is looked at between two pauses only, so a single back-off pause must be (much) shorter
+        # than the timeout - here 1 s is given; the pauses of the first rounds are evaluated from the loop's own counters
+        pauses = []
+        for o in outs:
+            for e in o.trace:
+                if e.kind == "sleep" and e.func is f:
+                    c_ = const_of(norm(e.data)) if e.data is not None and hasattr(e.data, "key") else None
+                    pauses.append((c_, e))
+        for c_, e in pauses:
+            agg.add("R17.3", f, "a back-off pause of renew_address() is a number of milliseconds, far below the timeout", isinstance(c_, (int, float)) and 0 <= c_ < 1.0,
+                    "%s: renew_address(timeout=1) pauses for %r seconds between two request rounds - the call returns long after the timeout" % (clsname, c_ if c_ is not None else e.data), e.node)
+        if clsname == "RF24MeshNoMaster":
+            agg.add("R17.3", f, "renew_address() backs off between request rounds (anchor)", bool(pauses), "%s: no pause found" % clsname)
         # send(): lookup failures end through the clock test with False
         f = P.method(cls, "send")
         n += 1
@@ -217,6 +230,77 @@ def misc(ck, agg):
         outs = nn.run(f, node, [Const(9), Const(7), msg], st, limits=Limits(max_paths=60000, loop_unroll=2, depth=14, concrete_loop=10))
         rets = [o for o in outs if o.kind == "return"]
         agg.add("R17.3", f, "send() to an ID that cannot be resolved ends through its clock test with False", bool(rets) and all(value_matches(o.value, False) for o in rets), "%s: returns %r" % (clsname, [o.value for o in rets][:4]))
+    return n
+
+
+def send_by_id(ck, agg):
+    """R17.8 "a message sent to its node ID arrives at that node": send(id, ..) writes to the address the master reports for that ID - to
+    the node's own address only when the *ID given by the caller* is the node's own ID, to the master for ID 0.  IDs and addresses are
+    different number spaces: whether the destination is "me" must never be decided by comparing the looked-up address with an ID."""
+    P = ck.prog
+    n = 0
+    for clsname in ("RF24MeshNoMaster", "RF24Mesh"):
+        nn = node_of(ck, clsname)
+        cls = nn.cls
+        f = P.method(cls, "send")
+        hit = cls.lookup("lookup_address")
+        f_write = cls.lookup("write")[1]
+
+        def lk(model, it, st, fr, node, target, args, kwargs):
+            k = st.extra.get("nlook", 0) + 1
+            st.extra["nlook"] = k
+            net.set_rng(st, ("lookup", k), (-2, 0o7777))
+            it.event(st, fr, "lookup", node, (k, args[1] if len(args) > 1 else None))
+            return [(st, Sym(("lookup", k), "int", rng=(-2, 0o7777)))]
+
+        def wr(model, it, st, fr, node, target, args, kwargs):
+            it.event(st, fr, "mesh-write", node, tuple(args[1:]))
+            return [(st, Sym(st.fresh_name("written"), "bool"))]
+        nn.model.opaque[hit[1].qualname] = lk
+        nn.model.opaque[f_write.qualname] = wr
+        nn.model.loop_key = None
+        st, node = nn.fresh(fields={net.FN("_addr"): 0o12})
+        own_id = st.heap[node.ident].fields[net.FN("_id")]
+        net.set_rng(st, "dest_id", (0, 255))
+        dest = Sym("dest_id", "int", rng=(0, 255))
+        msg = Bytes([(("param", "message"), Const(3))], "bytes")
+        outs = nn.run(f, node, [dest, Const(7), msg], st, limits=Limits(max_paths=20000, loop_unroll=1, depth=14, concrete_loop=4))
+        for out in outs:
+            ws = [e for e in out.trace if e.kind == "mesh-write"]
+            if out.kind != "return" or not ws:
+                continue
+            n += 1
+            a0 = norm(ws[0].data[0])
+            looks = [e for e in out.trace if e.kind == "lookup" and e.seq < ws[0].seq]
+            # what the path knows about "the caller's ID is my own ID"
+            mine = None
+            bad_cmp = []
+            for e in out.trace:
+                if e.kind != "cond" or e.seq > ws[0].seq or not isinstance(e.node, ast.Compare) or not isinstance(e.data[1], tuple) or len(e.data[1]) != 2:
+                    continue
+                if not isinstance(e.node.ops[0], (ast.Eq, ast.NotEq)):
+                    continue
+                p_, q_ = [norm(x) for x in e.data[1]]
+                keys = {p_.key(), q_.key()}
+                if norm(own_id).key() in keys:
+                    other = q_ if p_.key() == norm(own_id).key() else p_
+                    eq = e.data[0] if isinstance(e.node.ops[0], ast.Eq) else not e.data[0]
+                    if other.key() == dest.key():
+                        mine = eq
+                    elif isinstance(other, Sym) and isinstance(other.name, tuple) and other.name[0] == "lookup":
+                        bad_cmp.append(e)
+            for e in bad_cmp:
+                agg.add("R17.8", f, "the node's own ID is compared with the ID the caller gave, never with a looked-up address", False,
+                        "%s.send(): `%s` compares the address reported by the master with the node's ID - a destination whose address happens to equal the sender's ID "
+                        "(ID 5 sending to the node at 0o5) is taken for the sender itself and the message is written to the sender's own address" % (clsname, ast.unparse(e.node)), e.node)
+            if not bad_cmp:
+                agg.add("R17.8", f, "the node's own ID is compared with the ID the caller gave, never with a looked-up address", True, "")
+            if mine is True:
+                agg.add("R17.8", f, "a message to the node's own ID is written to its own address", const_of(a0) == 0o12 and not looks, "%s.send(own id): written to %r after %d lookups" % (clsname, a0, len(looks)))
+            elif looks:
+                last = ("lookup", looks[-1].data[0])
+                agg.add("R17.8", f, "a message to another ID is written to the address the master reported for it", isinstance(a0, Sym) and a0.name == last,
+                        "%s.send(other id): written to %r, the master reported %r" % (clsname, a0, last))
     return n
 
 
@@ -306,11 +390,15 @@ def run(ck):
     n5 = request_frames(ck, agg)
     # "... recorded under its ID in the master's table" also at a re-join: the lease store overwrites an older lease of the same ID (R16.4)
     n6 = c16.table_ops(ck, agg, c16.master(ck))
+    # ... and a request is served once: no request stays pending after the master's update() (R16.6)
+    c16.dispatch(ck, agg, c16.master(ck))
     # "afterwards a message sent to its node ID arrives": the receiver's queue refuses a frame whose (origin, frame id, type) it already holds,
     # so every message a node's write()/send() builds must travel under a frame id of its own (R06.9, shared with C05/C06)
     from . import c05
     n7 = c05.validate(ck, agg, net.NetNode(ck, "rf24_network", "RF24Network"))
+    n8 = send_by_id(ck, agg)
     agg.flush()
+    ck.floor("R17.8", "send() paths reaching write()", n8, 4)
     ck.floor("R16.4", "lease table scenarios", n6, 3)
     ck.floor("R06.9", "sender scenarios", n7, 8)
     ck.floor("R16.1", "allocator relay scenarios", n4, 7)
